@@ -156,7 +156,7 @@ def program(prog, victim=None) -> str:
         if op.get("alias_fx"):
             line += "   # gives the automatic alias " + ", ".join(f"{a!r} to v{d}" for d, a in op["alias_fx"])
         if victim is not None and i == victim:
-            line += "   # <-- the object/read that differs from its linear rebuild"
+            line += "   # <-- the object (or read) the finding is about"
         out.append(line)
     return "\n".join(out) + "\n"
 
